@@ -151,7 +151,7 @@ claim('C16', 'Coq proof (nested induction over the argument universe; frame / bl
 
 claim('C14', 'Coq proof (trace invariant of the loader for all staged programs and stores; termination measure + simulation of the reload loop by the sequential evaluation; closed barrier => incomplete loaded task) + differential evaluation of the model in coqc against jug.init / check / execute on generated jugfiles at every subset of earlier results',
       'Theorems (Props/C14.v) over Model/Loader.v, for all programs (continuations after bvalue are arbitrary functions of the value; barriers inside compound builders) and all stores: a barrier() returns only if every task defined before it is stored, bvalue(a) returns only the stored value and the load continues as k v, nothing runs after a BarrierError and the namespace is flagged iff there was one; the reload loop of execute needs at most (number of barrier/bvalue calls of the sequential evaluation)+1 loads and ends with no barrier closed, check = 0 and every stored value equal to the sequential one; a closed barrier implies an unstored loaded task and check = 1 on ANY store (after the D18 repair); `jug sleep-until` exits only when a fresh load is complete (C14_sleep_until_exits_only_when_complete); for ANY NUMBER OF WORKERS barrier()/bvalue() are extra scheduling dependencies and the protocol theorems of C01/C02 apply (C14_many_workers_*: nothing behind a barrier starts early, values sequential, complete at quiescence).  Tie: generated jugfiles with markers after every barrier, real jug.init + CheckCommand at every subset of earlier results (also with non-sequential values), real jug execute on dict and file stores; alltasks by real hash, markers, flag, exit code, final store and number of loads compared with the model; deep dependency chains under a lowered recursion limit; failing tasks and locks across phases with the exit-status oracle; several lock-step workers running the real reload loop validated against Model/Exec.v with barrier edges (harness/execbarrier.py).',
-      'Kernel + vm_compute; the loader theorems are about one worker, the many-workers theorems about the protocol with barrier edges (the reading of barriers as edges is justified by the loader theorems and validated by the traces); premises: sequential evaluation succeeds, one value per identifier (tested per case), start store agrees with it, Python scoping; task identifiers are real hashes predicted with jug.task.Task.hash on stub functions; values integers mod 3 and pairs.',
+      'Kernel + vm_compute; the loader theorems are about one worker, the many-workers theorems about the protocol with barrier edges (the reading of barriers as edges is a theorem for jugfiles without CompoundTask - C14_loading_is_waiting_for_barrier_edges, Proofs/LoaderExtraFacts.v: on any store holding sequential values the loader puts into alltasks exactly the tasks all of whose barrier/bvalue edges are stored - and is validated by the traces); premises: sequential evaluation succeeds, one value per identifier (tested per case), start store agrees with it, Python scoping; task identifiers are real hashes predicted with jug.task.Task.hash on stub functions; values integers mod 3 and pairs.',
       'DESIGN.md sec. 3 C14')
 claim('C18', 'Coq proof (compound = builder in place + one task with the probe hash; collapse; value through the reload-loop theorem; cleanup preserves what is loaded) + differential evaluation of the model in coqc against CompoundTaskGenerator / execute / cleanup / status on generated builders',
       'Theorems (Props/C18.v) over Model/Loader.v for all builders (arbitrary staged programs: nested compounds, barriers/bvalue inside, tuple/constant results) and all stores: with no result under its hash a compound loads exactly as its builder written in place followed by one task that stores the value of the builder\'s result under that hash; after execute every compound\'s stored value is the sequential value of its builder\'s result; with a result it loads as ONE task and nothing of the builder, execute runs nothing, and cleanup (keep the hashes of loaded tasks) keeps the compound key with its value, drops every inner result, and leaves the load and check unchanged.  Tie: generated builders x start stores {empty, some/all inner, collapsed, only compounds, everything, random, non-sequential values} x random load/phase/execute/cleanup/status sequences on dict and file stores; alltasks by real hash, executed tasks, whole store and counts compared after every step.',
